@@ -319,6 +319,22 @@ def compare_member(m, cell=True):
     return None
 
 
+def rmsd_agrees(got, ref, xt, xr_frame):
+    """got/ref: RMSD arrays; xt: target coordinates (n_frames, n_atoms, 3); xr_frame: the reference frame.
+    float32 QCP computes msd = (G_t + G_r - 2*lambda)/N: its noise scales with the mean squared radii G/N, so the comparison
+    is made on msd with a tolerance relative to them.  A stale trace is off by a sizeable fraction of G/N."""
+    got = np.asarray(got, dtype=np.float64)
+    ref = np.asarray(ref, dtype=np.float64)
+    if got.shape != ref.shape:
+        return False
+    xt = np.asarray(xt, dtype=np.float64)
+    xr = np.asarray(xr_frame, dtype=np.float64)
+    g_t = ((xt - xt.mean(1)[:, None, :]) ** 2).sum(2).mean(1)
+    g_r = ((xr - xr.mean(0)) ** 2).sum(1).mean()
+    tol = 2e-3 * (g_t + g_r) + 1e-6
+    return bool(np.all(np.abs(got ** 2 - ref ** 2) <= tol))
+
+
 def kabsch_fit(P, Q):
     """rotate+translate P (n,3) onto Q (n,3) -> (R, tP, tQ): x' = (x - tP) @ R + tQ"""
     P = np.asarray(P, dtype=np.float64)
@@ -687,15 +703,8 @@ def execute(check, case, workdir):
                         if np.abs(live[k].mean(0) - refx.mean(0)).max() > 2e-4 * scale:
                             bad_kind = ('centroid', float(np.abs(live[k].mean(0) - refx.mean(0)).max()))
                             break
-                        R, tP, tQ, S = kabsch_fit(x0, refx)
-                        opt = np.sqrt((((x0 - tP) @ R + tQ - refx) ** 2).sum() / len(x0))
-                        got_r = np.sqrt(((live[k] - refx) ** 2).sum() / len(x0))
-                        # optimality is demanded only for well-conditioned point sets (full-rank covariance); the QCP kernel gives up
-                        # ("unconverged rotation matrix, returning identity") on collinear / coincident / planar inputs, which is a
-                        # numerical limit of the kernel (C06 territory), not a slicing or aliasing matter
-                        if S[2] > 1e-2 * max(S[0], 1e-12) and got_r > opt + 2e-2 * scale:
-                            bad_kind = ('not_optimal', float(got_r - opt))
-                            break
+                        # How good the superposition is numerically belongs to C06 (not claimed; the QCP kernel may give up on
+                        # degenerate point sets): a history relies only on "rigid motion onto the reference's centroid".
                     if bad_kind is not None:
                         viol('superpose', 'result_mismatch:' + bad_kind[0], {'excess': bad_kind[1]}, stepno, flags)
                         m.xyz = np.array(t.xyz, dtype=np.float32)
@@ -793,7 +802,7 @@ def execute(check, case, workdir):
                 if judge03:
                     # float32 QCP: near-zero RMSDs carry noise of up to ~1e-2 nm; a stale trace is off by >= 0.1 nm here
                     enough_atoms = m.xyz.shape[1] >= 3
-                    if np.asarray(got).shape != (m.n,) or (enough_atoms and not np.allclose(got, ref, atol=2e-2, rtol=1e-2)):
+                    if np.asarray(got).shape != (m.n,) or (enough_atoms and not rmsd_agrees(got, ref, old_m, old_u[f])):
                         viol('rmsd', 'differs_from_scratch', {'expected': np.asarray(ref).tolist()[:8], 'got': np.asarray(got).tolist()[:8],
                                                               'target_frames': m.n}, stepno, flags)
                         m.xyz = np.array(m.t.xyz, dtype=np.float32)
@@ -991,7 +1000,7 @@ def execute(check, case, workdir):
                 break
             if cs == 'set':
                 res.probe('final_sweep_shortcut_taken')
-            if np.asarray(got).shape != (m.n,) or (m.xyz.shape[1] >= 3 and not np.allclose(got, ref, atol=2e-2, rtol=1e-2)):
+            if np.asarray(got).shape != (m.n,) or (m.xyz.shape[1] >= 3 and not rmsd_agrees(got, ref, T0.xyz, T0.xyz[0])):
                 viol('final_rmsd', 'differs_from_scratch', {'expected': np.asarray(ref).tolist()[:8], 'got': np.asarray(got).tolist()[:8],
                                                             'member': m.id}, len(case['ops']), 'cache=%s' % cs)
                 break
